@@ -40,6 +40,7 @@ type verifCase struct {
 	Seed    int          `json:"seed"`
 	Weights []int        `json:"weights"`
 	Shards  []verifShard `json:"shards"` // optional, per shard
+	Proxy   bool         `json:"proxy"`  // every shard behind a switchable TCP proxy (#down / #up)
 	Ops     []verifOp    `json:"ops"`
 }
 
@@ -522,6 +523,8 @@ func verifKV(c verifCase) any {
 	// close them when the case is over
 	defer redis.VerifResetClients()
 	var shards []*miniredis.Miniredis
+	var proxies []*c12raw.C12Proxy
+	var hosts []string
 	var conf Config
 	for i, w := range c.Weights {
 		// per-shard configuration (kv.Config = []cache.NodeConfig{redis.Config{Host, Type, Pass, Tls}, Weight});
@@ -542,7 +545,27 @@ func verifKV(c verifCase) any {
 		if sc.Cluster {
 			typ = redis.ClusterType
 		}
-		conf = append(conf, cache.NodeConfig{Config: redis.Config{Host: s.Addr(), Type: typ, Pass: sc.Pass, Tls: sc.TLS}, Weight: w})
+		host := s.Addr()
+		if c.Proxy {
+			px, err := c12raw.C12NewProxy(s.Addr())
+			if err != nil {
+				return map[string]any{"error": err.Error()}
+			}
+			defer px.Close()
+			proxies = append(proxies, px)
+			host = px.Addr()
+		}
+		hosts = append(hosts, host)
+		conf = append(conf, cache.NodeConfig{Config: redis.Config{Host: host, Type: typ, Pass: sc.Pass, Tls: sc.TLS}, Weight: w})
+	}
+	down := make([]bool, len(shards))
+	anyDown := func() bool {
+		for _, d := range down {
+			if d {
+				return true
+			}
+		}
+		return false
 	}
 	sr, err := miniredis.Run()
 	if err != nil {
@@ -569,8 +592,8 @@ func verifKV(c verifCase) any {
 			for _, k := range s.Keys() {
 				places = append(places, []any{k, i})
 				if node, ok := store.(kvStore).dispatcher.Get(k); ok {
-					for j, t := range shards {
-						if t.Addr() == node.(*redis.Redis).Addr {
+					for j := range shards {
+						if hosts[j] == node.(*redis.Redis).Addr {
 							places = append(places, []any{k, j})
 						}
 					}
@@ -578,10 +601,34 @@ func verifKV(c verifCase) any {
 			}
 		}
 	}
+	owner := func(key string) int { // the shard the dispatcher sends the key to
+		if node, ok := store.(kvStore).dispatcher.Get(key); ok {
+			for j := range shards {
+				if hosts[j] == node.(*redis.Redis).Addr {
+					return j
+				}
+			}
+		}
+		return -1
+	}
 	steps := []any{}
 	var mark any
 	for _, op := range c.Ops {
 		switch op.M {
+		case "#down", "#up": // shard op.W becomes unreachable / reachable again (needs c.Proxy)
+			if c.Proxy {
+				w := op.W % len(shards)
+				down[w] = op.M == "#down"
+				proxies[w].SetDown(down[w])
+				if !down[w] {
+					probe := conf[w].Config.NewRedis()
+					for k := 0; k < 12; k++ {
+						probe.Ping()
+					}
+				}
+			}
+			steps = append(steps, map[string]any{"skip": op.M[1:]})
+			continue
 		case "#ff":
 			d := time.Duration(op.A.I(0)) * time.Second
 			for _, s := range shards {
@@ -616,6 +663,46 @@ func verifKV(c verifCase) any {
 			cancel()
 		case "deadline":
 			ctx, cancel = context.WithDeadline(ctx, time.Unix(1, 0))
+		}
+		if anyDown() && op.M == "DelCtx" {
+			// multi-key delete while a shard is unreachable: the twin runs the per-key DELs of the keys whose
+			// shard is reachable, in order; "an error" stands for the unreachable ones
+			wv, we, _ := verifWrap(store, ctx, op.Form == "plain", op.M, op.A)
+			var cnt int64
+			var downPos []int
+			for pos, k := range op.A.SS(0) {
+				if o := owner(k); o >= 0 && down[o] {
+					downPos = append(downPos, pos)
+					continue
+				}
+				n, _ := raw.Del(ctx, k).Result()
+				cnt += n
+			}
+			re := "nil"
+			if len(downPos) > 0 {
+				re = "Other:conn"
+			}
+			cancel()
+			steps = append(steps, map[string]any{
+				"w":   map[string]any{"v": c12raw.C12Val(wv), "e": c12raw.C12Err(we)},
+				"r":   map[string]any{"v": c12raw.C12Val(cnt), "e": re},
+				"brk": "n/a", "xw": "", "xr": "", "downpos": downPos, "nkeys": len(op.A.SS(0)),
+			})
+			continue
+		}
+		if anyDown() {
+			// any other command: only when its key's shard is reachable (deterministic subset)
+			key := ""
+			if op.M == "EvalCtx" {
+				key = op.A.S(1)
+			} else if len(op.A) > 0 {
+				key = op.A.S(0)
+			}
+			if o := owner(key); o < 0 || down[o] {
+				steps = append(steps, map[string]any{"skip": "down"})
+				cancel()
+				continue
+			}
 		}
 		wv, we, ok := verifWrap(store, ctx, op.Form == "plain", op.M, op.A)
 		if !ok {
